@@ -79,14 +79,17 @@ def enc(x, depth=0):
 def call_entry(e):
     fn = getattr(MODS[e["mod"]], e["fn"])
     args = copy.deepcopy(e["args"])
+    kw = copy.deepcopy(e.get("kw", {}))
+    then = copy.deepcopy(e["then"][1:]) if "then" in e else []
     try:
-        r = fn(*args, **copy.deepcopy(e.get("kw", {})))
+        r = fn(*args, **kw)
         if "then" in e:
-            r = getattr(r, e["then"][0])(*e["then"][1:])
+            r = getattr(r, e["then"][0])(*then)
         out = ("ok", r)
     except Exception as ex:  # "rejects X" entries are comparable too
         out = ("exc", type(ex).__name__)
-    return out, args
+    # everything the caller handed over: positional, keyword and method arguments
+    return out, [args, kw, then]
 
 
 def _cold_entry(i):
@@ -406,7 +409,7 @@ class Exec(object):
         i = op["e"] % len(CATALOG)
         e = CATALOG[i]
         name = e["mod"] + "." + e["fn"]
-        before = json.dumps(enc(e["args"]), sort_keys=True)
+        before = json.dumps(enc([e["args"], e.get("kw", {}), e["then"][1:] if "then" in e else []]), sort_keys=True)
         (kind, r), args = call_entry(e)
         got = json.dumps(["EXC", r] if kind == "exc" else enc(r), sort_keys=True)
         self.nq += 1
@@ -459,7 +462,7 @@ class Exec(object):
         if not cl["args"]:
             return
         name, args = cl["args"][op["r"] % len(cl["args"])]
-        for a in args:
+        for a in list(args[0]) + list(args[2]):
             if isinstance(a, list) and scribble(a, op["how"] if op["how"] in ("append", "pop", "clear", "reverse", "set0") else "append"):
                 self.faults["reuse_arg"] += 1
                 self.scribbled.append(name)
